@@ -1,14 +1,17 @@
 #!/bin/sh
 # usage: tools/seedtest.sh <patch.diff> <property-id> [more ids...]
-# Applies a seeded change to /repo, runs the quick checks named, and undoes the change.
+# Runs the named quick checks against the current /repo tree with a seeded change applied.
+# The change is applied to a throw-away copy (VERIF_REPO) so that background runs reading
+# /repo itself are not disturbed; equivalent to `git -C /repo apply` + run + `git checkout -- .`.
 patch="$1"; shift
-cd /repo || exit 2
-git diff --quiet || { echo "/repo has uncommitted changes"; exit 2; }
-git apply "$patch" || { echo "patch does not apply"; exit 2; }
-trap 'cd /repo && git checkout -- . && git clean -fdq' EXIT
+S=$(mktemp -d /tmp/seedrepo-XXXXXX) || exit 2
+trap 'rm -rf "$S"' EXIT
+rsync -a --exclude /.git /repo/ "$S/repo/" || exit 2
+(cd "$S/repo" && git init -q . 2>/dev/null && git apply "$patch") || { echo "patch does not apply"; exit 2; }
+rm -rf "$S/repo/.git"
 cd /verif
 for id in "$@"; do
-  ./check "$id" quick > /tmp/seed_$id.out 2>&1
+  VERIF_REPO="$S/repo" ./check "$id" quick > /tmp/seed_$id.out 2>&1
   echo "== $id exit=$? : $(grep -c '^VIOLATION' /tmp/seed_$id.out) violation lines; $(tail -1 /tmp/seed_$id.out | cut -c1-160)"
   grep '^VIOLATION' /tmp/seed_$id.out | head -2 | cut -c1-330
 done
